@@ -245,3 +245,30 @@ func H_C17_IsAdmin() {
 }
 
 func zzGetConf() (*group.Configuration, error) { return &group.Configuration{}, nil }
+
+var zzSegs = []string{"g", ".users", ".password", ".keys", ".tokens", ".wildcard-user", ".empty-user", "x"}
+
+// H_C12_ApiPaths: the API router on EVERY path made of up to D segments out
+// of the API's own vocabulary (in any order, so also shapes no client
+// library produces: ".users/.password", ".keys/.users", ...), with and
+// without trailing slash, under every method, by an administrator (the
+// deepest execution): nothing panics and every request is answered.
+func H_C12_ApiPaths() {
+	zzApi, zzAuth = nil, nil
+	method := zzMethods[v.Choice("method", len(zzMethods))]
+	k := v.Choice("k", v.Param("D")+1)
+	path := "/galene-api/v0/.groups"
+	for i := 0; i < k; i++ {
+		path += "/" + zzSegs[v.Choice(v.Idx("seg", i), len(zzSegs))]
+	}
+	if v.Choice("slash", 2) == 1 {
+		path += "/"
+	}
+	zzIsAdmin, zzHasExplicit = true, false
+	zzTokenExists, zzTokenForeign = true, false
+	w := &zzRW{h: http.Header{}}
+	r := &http.Request{Method: method, URL: &url.URL{Path: path}, Header: http.Header{}, Body: zzBody{}}
+	apiHandler(w, r)
+	v.Assert(method == "OPTIONS" || w.status != 0 || w.body > 0 || len(zzApi) > 0, "every request is answered")
+	v.Reach("end")
+}
